@@ -107,6 +107,7 @@ type c17Gen struct {
 	labels  map[string]bool
 	nodes   []*c17Node // container nodes in creation order
 	safeStr bool
+	utf8    bool // raw strings restricted to valid UTF-8
 }
 
 func (g *c17Gen) n(lo, hi int, l string) int { return rapid.IntRange(lo, hi).Draw(g.t, l) }
@@ -119,6 +120,8 @@ func (g *c17Gen) scalar() *c17Node {
 	case 2, 3:
 		if g.safeStr {
 			l = ast.Str(rapid.SampledFrom([]string{"", "a", "x y", "é", "日本", "0", "true", "a,b", "k: v", "[1]"}).Draw(g.t, "safe"))
+		} else if g.utf8 {
+			l = ast.Str(rapid.StringOfN(rapid.RuneFrom([]rune("ab </>&\u2028é日😀\x01\x1f\t,:{}[]")), 0, 8, -1).Draw(g.t, "utf8raw"))
 		} else {
 			l = ast.Str(c17RawString().Draw(g.t, "raw"))
 		}
